@@ -250,12 +250,10 @@ def _validate_subst(kind, old, new, template_text):
         if rustscan.norm_ws(body_o) != rustscan.norm_ws(mn.group(4)):
             raise ExtractError("closure-contract: closure body is not verbatim")
     elif kind in ("std-wrap", "std-wrap-all"):
-        m = re.match(r"\s*(\w+)\s*\(", new)
-        if not m:
-            raise ExtractError("std-wrap: replacement must be a call of a wrapper fn")
-        w = m.group(1)
-        if not re.search(r"#\[verifier::external_body\]\s*(?:pub\s+)?fn\s+%s\b" % w, template_text):
-            raise ExtractError(f"std-wrap: wrapper {w} is not an external_body fn of the template")
+        wrappers = set(re.findall(r"#\[verifier::external_body\]\s*(?:pub\s+)?fn\s+(\w+)\b", template_text))
+        used = [w for w in re.findall(r"\b(\w+)\s*\(", new) if w in wrappers]
+        if not used:
+            raise ExtractError("std-wrap: replacement must call an external_body wrapper fn of the template")
     elif kind == "assoc-type":
         # `Self::Name` -> the type the enclosing impl binds with `type Name = T;` (checked by the caller against the source)
         if not re.match(r"^Self::\w+$", old.strip()):
